@@ -206,7 +206,20 @@ func (r *run) exec(i int, op Op, or *OpRes) {
 			opts = append(opts, dig.As(args...))
 		}
 		if op.hasOpt("export") {
-			opts = append(opts, dig.Export(op.Export))
+			if len(op.Exports) > 0 {
+				for _, e := range op.Exports {
+					opts = append(opts, dig.Export(e))
+				}
+			} else {
+				opts = append(opts, dig.Export(op.Export))
+			}
+		}
+		if op.hasOpt("loc") {
+			lf, ok := r.fns[op.Loc]
+			if !ok || lf.unbuildable || lf.value == nil || reflect.ValueOf(lf.value).Kind() != reflect.Func {
+				panic(badTypes{fmt.Sprintf("op %d: loc %d is not a function of the program", i, op.Loc)})
+			}
+			opts = append(opts, dig.LocationForPC(reflect.ValueOf(lf.value).Pointer()))
 		}
 		if op.Cb {
 			opts = append(opts, dig.WithProviderCallback(r.callback(i)))
@@ -275,7 +288,16 @@ func (r *run) exec(i int, op Op, or *OpRes) {
 }
 
 func (r *run) callback(opIndex int) dig.Callback {
+	calls := 0
 	return func(ci dig.CallbackInfo) {
+		calls++
+		defer func() {
+			// a callback that panics (executor only, programs marked "reentrant"): the k-th call of the callback
+			// registered by this operation panics after having recorded its event
+			if k := r.req.Ops[opIndex].CbPanic; k > 0 && calls == k {
+				panic(UserPanic{Fn: -1, X: opIndex})
+			}
+		}()
 		errJS := `"nil"`
 		if ci.Error != nil {
 			errJS = string(Marshal(r.classify(ci.Error)))
